@@ -43,6 +43,7 @@ ASSUMPTIONS = [
     "'reported' for an invalid answer = TorState._attacher_error was invoked (or an error was logged); nothing may be sent for that stream",
     "a via-circuit connection whose circuit fails/closes before its stream is announced is outside the statement (counted only)",
     "whether the attacher is consulted at all for a .exit target is not judged; only that nothing is sent",
+    "bounded progress: a via-circuit connect() whose circuit stays BUILT must not fail before even trying its SOCKS endpoint",
 ]
 TRUSTED_BASE = ["vf.faketor.core", "harness SOCKS server script"]
 ANCHORS = ["txtorcon.torstate:TorState._maybe_attach", "txtorcon.torstate:TorState._stream_update",
@@ -200,7 +201,8 @@ class World(object):
 # ---------------------------------------------------------------------------
 # workload A: attacher answers
 
-ANSWERS = ["built", "launched", "extended", "closed", "foreign", "string", "int", "none", "dna", "raise"]
+ANSWERS = ["built", "launched", "extended", "closed", "foreign", "string", "int", "none", "dna", "raise",
+           "false", "zero", "empty-string", "empty-list", "fresh"]
 MODES = ["sync", "deferred", "coroutine", "coroutine-await"]
 KINDS = ["NEW", "NEWRESOLVE", "exit"]
 
@@ -230,6 +232,17 @@ def make_attacher(world, plan, log):
                 c.id = 999
                 c.state = "BUILT"
                 return c
+            if a == "false":
+                return False
+            if a == "zero":
+                return 0
+            if a == "empty-string":
+                return ""
+            if a == "empty-list":
+                return []
+            if a == "fresh":
+                # a circuit that the application had built for this stream after it appeared
+                return st.circuits.get(8)
             if a == "string":
                 return "circuit-1"
             if a == "int":
@@ -290,6 +303,8 @@ def expected_decision(world, p):
         return ("attach", 0)
     if a == "dna":
         return ("nothing", None)
+    if a == "fresh":
+        return ("attach", 8) if world.circ_state.get(8) == "BUILT" else ("invalid", None)
     if a in ("built", "launched", "extended"):
         st = world.circ_state.get(p["circ"])
         if st == "BUILT":
@@ -461,10 +476,17 @@ def gen_answers_case(rnd, combo=None):
     pend = []
     order = list(streams)
     rnd.shuffle(order)
+    fresh_done = False
     for s in order:
+        if s["answer"] == "fresh" and s["mode"] in ("sync", "coroutine") and not fresh_done:
+            steps += [("circ", 8, "LAUNCHED", 0), ("circ", 8, "EXTENDED", 2), ("circ", 8, "BUILT", 3)]
+            fresh_done = True
         steps.append(("new", s["sid"]))
         if s["mode"] in ("deferred", "coroutine-await"):
             pend.append(s["sid"])
+            if s["answer"] == "fresh" and not fresh_done:
+                steps += [("circ", 8, "LAUNCHED", 0), ("circ", 8, "EXTENDED", 2), ("circ", 8, "BUILT", 3)]
+                fresh_done = True
         r = rnd.random()
         if r < 0.15:
             steps.append(("second-attacher",))
@@ -563,6 +585,9 @@ def run_via(case, rec):
             cn = conns[step[1]]
             d = cn["tep"].connect(cn["factory"])
             cn["outcome"] = w.aud.watch(d, "connect%d" % step[1])
+            if not case.get("burst"):
+                w.pump()
+        elif op == "pump":
             w.pump()
         elif op == "establish":
             cn = conns[step[1]]
@@ -620,8 +645,18 @@ def run_via(case, rec):
     w.pump()
     # ---- oracle
     unrelated = {s[1]: s for s in case["steps"] if s[0] == "unrelated"}
+    closed_circs = {st[1] for st in case["steps"] if st[0] == "circ" and st[2] in ("CLOSED", "FAILED")}
     for i, cn in conns.items():
         c = cn["spec"]
+        o = cn["outcome"]
+        if (o is not None and o.fired and not o.ok and cn["ep"].d is None
+                and c["circ"] in (1, 2) and c["circ"] not in closed_circs):
+            # bounded progress: the circuit was BUILT all along and the SOCKS endpoint was never even
+            # tried, yet connect() failed by itself
+            rec.count("via_connections_judged")
+            rec.violation("connect-failed-before-connecting-although-circuit-usable", "via-circuit/concurrent-first-use"
+                          if case.get("burst") else "via-circuit/circuit-built",
+                          {"conn": c, "outcome": o.describe()}, case)
         if not cn["announced"]:
             continue
         icls = "via-circuit/%s" % ("circuit-" + (cn.get("circ_state_at_announce") or "gone").lower())
@@ -690,6 +725,7 @@ def gen_via_case(rnd, nconn=None, perm=None):
     steps = []
     for c in conns:
         steps.append(("connect", c["i"]))
+    steps.append(("pump",))
     est = [("establish", c["i"]) for c in conns]
     rnd.shuffle(est)
     steps += est
@@ -720,7 +756,8 @@ def gen_via_case(rnd, nconn=None, perm=None):
     for c in conns:
         if rnd.random() < 0.3:
             steps.append(("reuse", c["i"], 300 + c["i"]))
-    return {"kind": "via", "conns": conns, "steps": steps, "chunking": gen.chunking(rnd)}
+    return {"kind": "via", "conns": conns, "steps": steps, "chunking": gen.chunking(rnd),
+            "burst": rnd.random() < 0.5}
 
 
 # ---------------------------------------------------------------------------
@@ -774,7 +811,7 @@ def run_shard(spec, rec):
             ann = [s for s in case["steps"] if s[0] == "announce"]
             other = [("unrelated", 200, 61000, "127.0.0.1", "same.example:80")]
             mid = ann + other
-            pre = [s for s in case["steps"] if s[0] in ("connect", "establish")]
+            pre = [s for s in case["steps"] if s[0] in ("connect", "pump", "establish")]
             post = [s for s in case["steps"] if s[0] == "succeed"]
             case["steps"] = pre + [mid[i] for i in perm] + post
             run_case(case, rec)
